@@ -157,12 +157,13 @@ where
     /// Remove the coefficient of a power in the polynomial
     pub fn purge_coefficient(&mut self, power: usize) {
         match self.coefficients.len() {
-            len if len == power && len != 1 => {
+            len if len - 1 == power && len != 1 => {
                 self.coefficients.pop();
             }
-            _ => {
+            len if power < len => {
                 self.coefficients[power] = N::from_f64(0.0).unwrap();
             }
+            _ => {}
         };
     }
 
